@@ -145,9 +145,12 @@ def inline_unknown_helpers(fns, log=None):
             if nm in prot or q in known_functions() or "__" in nm or "{" in q.split("::")[-1]:
                 continue
             jq = json.dumps(q)
-            n = alltext.count('"q": %s' % jq) + alltext.count('"res": %s' % jq)
-            if n != 1 or jq in text.get(q, ""):
-                continue
+            # one reference in the whole crate (a call may name its callee twice: as written and as resolved)
+            nq, nr = alltext.count('"q": %s' % jq), alltext.count('"res": %s' % jq)
+            both = alltext.count('"q": %s, "res": %s' % (jq, jq)) + alltext.count('"res": %s, "q": %s' % (jq, jq))
+            n = nq + nr - both
+            if n != 1 or ('"q": %s' % jq) in text.get(q, "") or ('"res": %s' % jq) in text.get(q, ""):
+                continue  # not exactly one call site, or recursive
             if len(body["blocks"]) > 150:
                 continue
             cands[q] = m
